@@ -48,6 +48,10 @@ def run(ctx):
                        "evaluated with the program's regex engine on representative words) matches `~`, `~/`, `~/x` and "
                        "does not match `~name`, `~name/x`, `~~`, `a~`, `a~/x` - a match on `~name` splices the home "
                        "directory in front of the name (`~root` -> `/rootroot`)")
+    ctx.rule("R12-14", "the words a pattern produces are the matching paths as the pattern spells them: glob yields normalised "
+                       "paths (a leading `./` is dropped), so where expand_glob records a match it tests the pattern for a "
+                       "`./` prefix (or builds the word from a value set under that test) - otherwise `./-rf*` hands "
+                       "`-rf.txt` to the command")
     ctx.rule("R12-4", "the home directory is not interpreted as a regex replacement template")
     for crate in ctx.crates:
         res = etag.run_sites(ctx, "R12-1", crate, fn_filter=lambda p: p in PASSES)
@@ -70,6 +74,7 @@ def run(ctx):
         pass_chain_rule(ctx, crate)
         group_remainder_rule(ctx, crate)
         tilde_shape_rule(ctx, crate)
+        curdir_prefix_rule(ctx, crate)
         home_current_rule(ctx, crate)
         dot_entries_rule(ctx, crate)
 
@@ -640,3 +645,53 @@ def _narrow_gate(b):
                 continue
             todo.append(y)
     return not any(r in seen for r in rec)
+
+
+def curdir_prefix_rule(ctx, crate):
+    from .c02 import dom_facts
+    b = crate.fn("shell::expand_glob")
+    if not ctx.require(b is not None, "R12-14", "R12-14|anchor", "shell::expand_glob not found"):
+        return
+    ctx.analysed(b)
+    # pushes of text derived from a glob entry
+    is_entry = lambda z: z[0] == "call" and (last_seg(z[1]) in ("to_string_lossy", "display", "to_str", "into_os_string")
+                                             or "glob::Paths" in z[1])
+    sites = []
+    for bb, t, c in b.calls():
+        if last_seg(c) == "push" and "Vec" in c:
+            a = b.call_args(bb)
+            if len(a) == 2 and flow.backward(b, a[1], is_entry, through_containers=False) is not None:
+                sites.append((bb, a[1]))
+    if not ctx.require(bool(sites), "R12-14", "R12-14|%s|record" % b.path, "no push of a matched path found", b.path):
+        return
+
+    def is_prefix_test(a):
+        a = strip_sites(a)
+        return a[0] == "call" and last_seg(a[1]) in ("starts_with", "strip_prefix") and len(a[2]) >= 2 and \
+            mir.const_str(b.expand_vars(a[2][1])) == "./"
+    bad = []
+    tests = set()
+    for x in sorted(b.reachable):
+        for tgt, a, v in b.switch_edges(x):
+            a2 = strip_sites(a)
+            # the test on the PATTERN (the scanned token's text), not on the path glob returned
+            if (is_prefix_test(a2) or (a2[0] == "discr" and is_prefix_test(a2[1]))) and not any(
+                    is_entry(sub) for sub in mir.subexprs(b.expand_vars(a2))):
+                tests.add(x)
+    for bb, val in sites:
+        # the test has been made (with either outcome) before the match is recorded
+        guarded = any(b.dominates(x, bb) for x in tests)
+        derived = False
+        if not guarded:
+            # the word is built from a local that was set under such a test
+            for sub in mir.subexprs(b.expand_vars(strip_sites(val))):
+                if sub[0] in ("var", "tmp"):
+                    for bi, si in b.defs.get(sub[1], []):
+                        if any(is_prefix_test(a) for a, v in dom_facts(b, bi)):
+                            derived = True
+        if not (guarded or derived):
+            bad.append(bb)
+    ctx.ob("R12-14", b.path, "recorded matches account for a `./` prefix of the pattern (%d site(s))" % len(sites), not bad,
+           key="R12-14|%s|curdir-prefix" % b.path, where=b.loc((bad or [sites[0][0]])[0]), crate=crate.kind,
+           detail=None if not bad else "a match is recorded as glob yields it: for a pattern that starts with `./` the produced "
+           "words lack the prefix (`ls ./-rf*` runs `ls -rf.txt`)")
